@@ -104,6 +104,7 @@ Definition spec_C02 (i : winput) (o : obs_C02) : bool :=
              dannots_eqb gs (expected_records s KGene)
              && dannots_eqb ms (expected_records s KOmim)
              && dannots_eqb rs (expected_records s KOrpha)
+         | _ => true
          end
   | _ => true
   end.
